@@ -48,6 +48,14 @@ def programs(draw):
            'idmask': draw(st.sampled_from([0xF, 0xF, 0x3F, None])),
            # how the scripted application builds the exceptions it raises / fails with
            'exc_style': draw(st.sampled_from(['str', 'str', 'str', 'none', 'int', 'nested', 'tuple', 'bytes']))}
+    slow = draw(st.integers(0, 3)) == 0
+    if slow:
+        # a slow link: every write takes 1 ms of virtual time, so a fragment train is on its way for a while and the
+        # other side's frames (a CANCEL, say) are processed in the middle of it
+        cfg['write_delay'] = draw(st.sampled_from([[0.001, 0.001], [0, 0.001], [0.001, 0]]))
+        # with the id space reduced to 8 ids a fire-and-forget frame that waits in the send queue can see its (unregistered)
+        # id handed out again before it is sent; with 2^30 ids that takes 2^30 allocations during one queue residence
+        cfg['idmask'] = None
     n = draw(st.integers(1, 12))
     inter = []
     for i in range(n):
@@ -86,12 +94,33 @@ def programs(draw):
         st.integers(0, 11).map(lambda i: [('end', i, 'req'), ('tick', 2), ('end', i, 'resp'), ('tick', 2)]),
         st.integers(0, 11).map(lambda i: [('end', i, 'resp'), ('tick', 2), ('end', i, 'req'), ('tick', 2)]),
         st.just([('start',), ('tick', 3), ('regime', 'pumped'), ('tick', 6)]),
+        # (slow link) cancel a few milliseconds into a large element
+        st.tuples(st.integers(0, 11), st.integers(1, 6)).map(
+            lambda a: [('regime', 'pumped'), ('emit', a[0], 'resp', 1), ('adv', a[1]), ('cancel', a[0], 'resp'), ('adv', 40), ('tick', 3)]),
+        # cancel while a fragment train of that stream is partly delivered: the rest of the train is still owed by the sender
+        st.tuples(st.integers(0, 11), st.sampled_from(['c', 's']), st.integers(60, 260)).map(
+            lambda a: [('regime', 'manual'), ('emit', a[0], 'resp', 1), ('tick', 2), ('deliver', a[1], a[2]), ('tick', 1),
+                       ('cancel', a[0], 'resp'), ('tick', 1), ('deliver', 'c', None), ('tick', 1), ('deliver', 's', None), ('tick', 2),
+                       ('deliver', 'c', None), ('deliver', 's', None), ('regime', 'pumped'), ('tick', 3)]),
     )
     chunks = draw(st.lists(st.one_of(single.map(lambda o: [o]), single.map(lambda o: [o]), macro), min_size=2, max_size=30))
     ops = [list(o) for ch in chunks for o in ch]
     missing = max(0, n - sum(1 for o in ops if o[0] == 'start'))
     for _ in range(missing):
         ops.extend([['start'], ['tick', 2]])
+    if slow:
+        cand = [i for i, sp in enumerate(inter) if sp['k'] in ('st', 'ch') and (sp.get('src') or {}).get('kind') == 'manual'
+                and not sp.get('handler_raises')]
+        if cand:
+            # one large element on the slow link, cancelled by the requester a few writes into its fragment train
+            i = draw(st.sampled_from(cand))
+            fs = cfg['frag'][1 if inter[i]['side'] == 'c' else 0]
+            if fs is None:
+                cfg['frag'] = [cfg['frag'][0] or 64, cfg['frag'][1] or 64]
+                fs = 64
+            inter[i]['src'] = dict(inter[i]['src'], els=[[fs * draw(st.integers(4, 9)), 0]] + list(inter[i]['src']['els'])[:2])
+            ops += [['regime', 'pumped'], ['adv', 30], ['emit', i, 'resp', 1], ['adv', draw(st.integers(1, 6))], ['cancel', i, 'resp'],
+                    ['adv', 40], ['tick', 3]]
     return {'cfg': cfg, 'inter': inter, 'ops': ops}
 
 
@@ -165,6 +194,7 @@ def prop(program):
     info['nt'] = reused or abnormal_channel
     info['classes'] = ['reused_id=%s' % reused, 'reused_id_judged=%s' % (reused and len(skip) == len(disturbed)),
                        'abnormal_channel_end=%s' % abnormal_channel, 'quiescent=%s' % tr.quiet,
+                       'slow_link=%s' % bool(program['cfg'].get('write_delay')),
                        'interactions=%s' % (len(tr.scn.started) if len(tr.scn.started) < 9 else '9+'),
                        'all_terminated=%s' % all(monitors.api_terminated(tr, u) for u in tr.scn.started)]
     return vs
